@@ -205,6 +205,7 @@ def c07(run):
 def c10(run):
     run.rule = ("impl->spec: seeded random macro programs over lists and maps with logging / erroring bodies; non-trivial = contains a comprehension")
     mc_vectors(run, "CelEvalMC_C10")
+    mc_vectors(run, "CelEvalMC_C10_maps")
     if run.tier == "thorough":
         mc_vectors(run, "CelEvalMC_C10_lists")
     run.exhaustive = True
@@ -220,7 +221,7 @@ def c03(run):
     mc_vectors(run, "CelEvalMC_C03_arith")
     mc_vectors(run, "CelEvalMC_C03_core")
     run.exhaustive = True
-    path = drive_eval(run, "c03", run.q(2500, 60000), depth=run.q(5, 6))
+    path = drive_eval(run, "c03", run.q(1800, 60000), depth=run.q(5, 6))
     validate_trace(run, "CelEvalTrace", path, nontrivial=lambda c: json.dumps(c.get("ast")).count('"k"') >= 3)
 
 
@@ -243,7 +244,7 @@ def c08(run):
                 "invariants AgreesWithNative / Laws on Num64; impl->spec: every ordered pair of the i64 and u64 boundary sets under "
                 "+ - * / % and unary minus, spelled as literals, as context variables and through the host-side operators, mixed kinds, "
                 "random uniform and log-uniform pairs; a case is non-trivial unless both operands are 0 or 1")
-    model_check(run, "Num64MC", cfg=run.q("Num64MC_q", "Num64MC"), workers=8)
+    model_check(run, "Num64MC", cfg=run.q("Num64MC_q", "Num64MC"), workers=1)
     run.exhaustive = True
     path = drive_ops(run, "c08")
 
@@ -260,7 +261,7 @@ def c09(run):
                 "impl->spec: the implementation's complete observed table of the six relations over an ~90-value pool (every ordered pair) is checked "
                 "cell by cell against Cmp/Eq and, independently, against the coherence laws themselves (CelCmpLaws); plus in, min, max, host-side eq/partial_cmp; "
                 "non-trivial = operands of different kinds or numerically close")
-    model_check(run, "CelCmpMC", cfg=run.q("CelCmpMC_q", "CelCmpMC"), workers=12)
+    model_check(run, "CelCmpMC", cfg=run.q("CelCmpMC_q", "CelCmpMC"), workers=1)
     run.exhaustive = True
     tab = run.work("cmp_table.ndjson")
     celconf(["drive-ops", "--family", "cmp-table", "--out", tab])
@@ -280,7 +281,7 @@ def c14(run):
                 "impl->spec: every map with <=4 distinct keys of the alphabet (quick: all with <=2, half of the rest) x 16 query keys x the query forms "
                 "k in m, m.contains(k), m[k], m.k, has(m.k) as variables and as literals; every list of length <=5 x every index in -2..len+1 and the i64 extremes; "
                 "random strings/lists for the additive laws; non-trivial = the map or list is non-empty")
-    model_check(run, "CelMapMC", workers=12)
+    model_check(run, "CelMapMC", workers=1)
     run.exhaustive = True
     path = drive_ops(run, "c14")
     validate_trace(run, "CelOpTrace", path, sample_key=op_sample,
@@ -331,7 +332,7 @@ def c02(run):
                 "behaviour of the specification; non-trivial = not a bare leaf")
     mc_vectors(run, "CelEvalMC_C02")
     run.exhaustive = True
-    path = drive_eval(run, "c02", run.q(4000, 120000), depth=run.q(6, 8))
+    path = drive_eval(run, "c02", run.q(2500, 120000), depth=run.q(6, 8))
     validate_trace(run, "CelEvalTrace", path, nontrivial=lambda c: c.get("ast", {}).get("k") not in ("lit", "id"))
     table = run.work("c02_table.ndjson")
     celconf(["c02-table", "--seed", run.seed, "--tier", run.tier, "--out", table])
@@ -427,7 +428,7 @@ def c15(run):
                 "impl->spec: string(d), duration(string(d)) == d for the boundary set (0, +-1ns ... +-1h, i64::MIN/MAX ns and neighbours) and log-uniform random "
                 "nanosecond counts; duration(s) for non-canonical well-formed spellings and a mutation grammar over canonical strings (trailing text, missing unit, "
                 "doubled sign, exponent, inf/nan, spaces, empty); + - and the six comparisons on every pair of the boundary set; non-trivial = non-zero duration or malformed string")
-    model_check(run, "CelDurationMC", workers=8)
+    model_check(run, "CelDurationMC", workers=1)
     run.exhaustive = True
     path = drive_ops(run, "c15")
     validate_trace(run, "CelOpTrace", path, sample_key=op_sample, nontrivial=lambda c: c["a"].get("n", {}).get("s", 1) != 0,
@@ -441,8 +442,8 @@ def c16(run):
                 "(first/last day of every month in leap, non-leap, century, 400-year and edge years x 3 times of day x offsets -12:00..+14:00, plus random), parsed by cel-rust; "
                 "the instant must equal the specification's own parse of the text, every accessor its calendar field at the timestamp's offset, string(t) must denote the same "
                 "instant and offset, timestamp(string(t)) == t, comparisons by instant, t+d, t-d, t1-t2 and the two laws; non-trivial = every record")
-    model_check(run, "CelTimeMC", cfg=run.q("CelTimeMC_q", "CelTimeMC"), workers=12, timeout=3000)
-    model_check(run, "CelTimeMC", cfg="CelTimeMC_local", workers=12)
+    model_check(run, "CelTimeMC", cfg=run.q("CelTimeMC_q", "CelTimeMC"), workers=1, timeout=3000)
+    model_check(run, "CelTimeMC", cfg="CelTimeMC_local", workers=1)
     run.exhaustive = True
     path = drive_ops(run, "c16")
     validate_trace(run, "CelOpTrace", path, sample_key=op_sample, nontrivial=lambda c: True,
@@ -460,7 +461,7 @@ def c17(run):
                 "Serialize impl calls exactly the named Serializer method (every integer width at its extremes, NaN/inf, non-ASCII, nested options, every key kind, "
                 "wrong-order map protocol, the private Duration/Timestamp marker names with proper and foreign content) through to_value and Context::add_variable; "
                 "the commuting square json(to_value(t)) = serde_json::to_value(t) on JSON-representable terms; random serde_json documents; non-trivial = compound term")
-    model_check(run, "CelDataMC", workers=8)
+    model_check(run, "CelDataMC", workers=1)
     run.exhaustive = True
     path = drive_ops(run, "c17")
     validate_trace(run, "CelDataTrace", path, nontrivial=lambda c: any(k in c["a"] for k in ("e", "x", "f", "m")),
@@ -476,7 +477,7 @@ def c18(run):
                 "collections, durations on both sides of +-2^63 ns, NaN/inf, empty collections, colliding keys): json() must equal Export (base64, RFC 3339 text "
                 "denoting the instant, nanosecond counts, null for non-finite) or the matching error, and to_value(json(v)) == v on the JSON-native fragment; "
                 "non-trivial = collection, bytes, timestamp or duration")
-    model_check(run, "CelDataMC", workers=8)
+    model_check(run, "CelDataMC", workers=1)
     run.exhaustive = True
     path = drive_ops(run, "c18")
     validate_trace(run, "CelDataTrace", path, nontrivial=lambda c: c["a"]["t"] in ("list", "map", "bytes", "ts", "dur"),
@@ -491,7 +492,7 @@ def c13(run):
                 "literals, boundary and random doubles in several spellings, out-of-range and malformed literals: ints/uints must evaluate exactly, doubles to a correctly "
                 "rounded value (decided by exact decimal/binary comparison), out-of-range literals must be compile errors; int()/uint()/double() on every boundary argument "
                 "(NaN, +-inf, subnormals, -0.0, +-2^63, 2^64 and neighbouring doubles, numeric strings); string() followed by the inverse conversion; non-trivial = every record")
-    model_check(run, "CelNumLitMC", workers=8)
+    model_check(run, "CelNumLitMC", workers=1)
     run.exhaustive = True
     path = drive_ops(run, "c13")
     validate_trace(run, "CelOpTrace", path, sample_key=op_sample, nontrivial=lambda c: True,
@@ -505,7 +506,7 @@ def c12(run):
                 "value plus boundaries and the surrogate range; thorough: all 65536), \\\\U at plane boundaries, surrogates, 10FFFF, 110000 and random values, every single-character "
                 "escape and malformed escapes, in each of the 4 quoting styles, as string, bytes, raw and raw bytes literals, alone and between neighbours; random strings/byte "
                 "sequences with random style and per-character spelling; non-trivial = the literal contains a backslash or a non-ASCII character")
-    model_check(run, "CelLiteralMC", workers=8)
+    model_check(run, "CelLiteralMC", workers=1)
     run.exhaustive = True
     path = drive_ops(run, "c12")
     validate_trace(run, "CelOpTrace", path, sample_key=lambda c: {"src": c["src"], "out": c["out"]},
